@@ -1,6 +1,6 @@
 //! C05 — each kind of convention violation is reported where it occurs.
 //!
-//! Family V: every base program of the S slice x 16 violation classes x every
+//! Family V: every base program of the S slice x 17 violation classes x every
 //! admissible injection site. The oracle knows, by construction, which
 //! instruction (or operand) is the offending one.
 
@@ -11,7 +11,7 @@ use crate::model::*;
 use crate::sfam::*;
 use serde_json::{json, Value};
 
-pub const CLASSES: [&str; 16] = [
+pub const CLASSES: [&str; 17] = [
     "saved-register-overwritten",
     "sp-not-restored",
     "ra-clobbered-by-nested-call",
@@ -28,6 +28,7 @@ pub const CLASSES: [&str; 16] = [
     "function-on-first-line",
     "temporary-updated-in-place-after-call",
     "register-never-assigned-updated-in-place",
+    "saved-register-read-but-never-assigned",
 ];
 const MAX_SITES: u64 = 10;
 
@@ -343,6 +344,19 @@ pub fn inject(sp: &SProgram, class: usize, site: usize) -> Option<Injected> {
                 true,
             )
         }
+        16 => {
+            // a saved register the function never writes is read by an arithmetic
+            // instruction: its value is whatever the caller left there
+            let (fi, p) = *all_sites.get(site)?;
+            let acc = acc_reg(&sp.fns[spans[fi].plan]);
+            mk(
+                insert(sp, p, vec![inst(Inst::R(ROp::Add, acc, acc, 21))]),
+                p,
+                Some(3),
+                &["invalid-use-before-assignment"],
+                false,
+            )
+        }
         _ => None,
     }
 }
@@ -577,7 +591,7 @@ impl Property for C05 {
     }
     fn info(&self, tier: Tier) -> Info {
         Info {
-            rule: "every 17th / 2nd program of the quick S family x 16 violation classes x up to 10 admissible sites each (function, position, register chosen by the class): the injected program must draw a diagnostic with the class's error code whose raw range is exactly the offending operand or instruction (known by construction); for the dynamic classes (saved register / sp / ra not restored, temporary read after a call, register never assigned) the convention monitor must first observe the violation on an explored execution. Non-trivial = injected programs of every class but the first".into(),
+            rule: "every 17th / 2nd program of the quick S family x 17 violation classes x up to 10 admissible sites each (function, position, register chosen by the class): the injected program must draw a diagnostic with the class's error code whose raw range is exactly the offending operand or instruction (known by construction); for the dynamic classes (saved register / sp / ra not restored, temporary read after a call, register never assigned) the convention monitor must first observe the violation on an explored execution. Non-trivial = injected programs of every class but the first".into(),
             bounds: json!({"bases": self.n_bases(tier), "classes": CLASSES, "max_sites": MAX_SITES}),
             assumptions: vec!["single injections into clean bases only; an injection whose violation no explored execution shows is counted, not judged".into()],
             states_counter: "injected_programs",
